@@ -218,4 +218,3 @@ func cmdVerify(pat string, to int, dump, verbose bool) int {
 	fmt.Printf("done in %.1fs\n", time.Since(t0).Seconds())
 	return code
 }
-
